@@ -77,7 +77,14 @@ pub fn install_panic_hook() {
             .location()
             .map(|l| {
                 let f = l.file();
-                let f = f.rsplit("/repo/").next().unwrap_or(f);
+                // normalise to a repository-relative path wherever the code under test lives
+                let f = if let Some(i) = f.rfind("miniz_oxide/src/") {
+                    &f[i..]
+                } else if let Some(i) = f.rfind("/src/") {
+                    &f[i + 1..]
+                } else {
+                    f
+                };
                 format!("{}:{}", f, l.line())
             })
             .unwrap_or_else(|| "?".into());
